@@ -14,11 +14,11 @@ var errInjected = errors.New("verif: injected store failure")
 // 1-based index is in failAt. A failing call returns before it touches the inner store, which is
 // how both a store error and a process that stops before the call takes effect look to the caller.
 type injector struct {
-	mu     sync.Mutex
-	count  int
-	failAt map[int]bool
-	fired  int
-	calls  []string
+	mu      sync.Mutex
+	count   int
+	failAt  map[int]bool
+	fired   int
+	calls   []string
 	firedIn []string // names of the calls that failed
 }
 
